@@ -76,3 +76,20 @@ Definition enc_weights_fse (log : N) (counts : list Z) (ws : list N) : option by
     end
   | _, _ => None
   end.
+
+(* what the decoder does with the listed weights once it has them (the checks on the CHOICE of weights and the implied
+   last weight); copied from Huf.read_huf_weights, which is [weights_finish] applied to the weights it read *)
+Definition weights_finish (maxLog : N) (ws : list N) (used : N) : res (list N * N * N) :=
+  check (forallb (fun w => w <=? maxLog) ws) else Eformat @ 213;
+  check (lenN ws <=? 255) else Eformat @ 214;
+  let total := weight_sum ws in
+  check (negb (total =? 0)) else Eformat @ 215;
+  let log := N.log2 total + 1 in
+  check (log <=? maxLog) else Eformat @ 216;
+  let rest := pow2 log - total in
+  check (pow2 (N.log2 rest) =? rest) else Eformat @ 217;
+  let last := N.log2 rest + 1 in
+  let all := ws ++ [last] in
+  let n1 := lenN (filter (fun w => w =? 1) all) in
+  check (andb (2 <=? n1) (N.even n1)) else Eformat @ 218;
+  Ok (all, log, used).
